@@ -726,9 +726,15 @@ impl Net {
 
 	fn op_pay(&mut self, op: &Value) -> bool {
 		let node = op["node"].as_u64().unwrap_or(0) as usize;
-		let off = op["off"].as_u64().unwrap_or(0) as usize;
+		let mut off = op["off"].as_u64().unwrap_or(0) as usize;
 		if node >= self.nodes.len() || off == 0 || off > self.offers.len() { return false; }
 		let pid = (node as i64) * 100 + op["id"].as_i64().unwrap_or(1);
+		// `alt_off`: the offer the user names if the id is in use (list_recent_payments lists it): a call that is going to be
+		// refused asks for ANOTHER offer -- a refused call must have no effect whatever it names
+		if let Some(a) = op["alt_off"].as_u64() {
+			let a = a as usize;
+			if a >= 1 && a <= self.offers.len() && self.listed(node).contains(&pid) { off = a; }
+		}
 		if !self.hold[node] { self.drain(); }
 		let handled = !self.hold[node];
 		let retries = op["retries"].as_u64().unwrap_or(0) as u32;
